@@ -140,7 +140,7 @@ RULE = ("histories: every sequence of <=3 (quick, thinned at depth 3) / <=4 (tho
         "topics (topic_partitions, topics_to_brokers, metadata_error_for_topic, partition_fully_replicated) must "
         "equal the response, other topics must be unchanged, vanished partitions must not look alive, a full refresh "
         "closes connections to missing brokers, new connections use the latest address.  self-heal: producer (4 "
-        "sends, batched/unbatched, 4 attempts) and consumer (5-message log) with every sequence of <=2 (quick) / <=3 "
+        "sends, batched/unbatched, 4 attempts) and consumer (5-message log) with every sequence of <=2 (<=3 for the thorough consumer part) "
         "(thorough) events from {leader moves, broker restarts, address change, a broker dying for good with its "
         "partitions moving; acks 1 and 0} injected at every point: a request to a partition whose routing was "
         "invalidated (error 3/6, or a produce call none of whose payloads reached a connection) is preceded by a "
@@ -158,8 +158,8 @@ def run(tier, seed, only=None):
     if "self-heal" in parts:
         b = (2, 1, 3) if tier == "quick" else (3, 1, 4)
         _dfs.run_plans(PROPERTY, "harness.producer:ProducerWorld",
-                       [("producer-self-heal", producer_configs(tier), (2, 0, 2) if tier == "quick" else b),
-                        ("producer-dead-broker", dead_broker_configs(tier), (1, 1, 2) if tier == "quick" else (2, 1, 3))],
+                       [("producer-self-heal", producer_configs(tier), (2, 0, 2) if tier == "quick" else (2, 1, 3)),
+                        ("producer-dead-broker", dead_broker_configs(tier), (1, 1, 2) if tier == "quick" else (2, 0, 2))],
                        seed, RULE, ASSUME, rep=rep)
         _dfs.run_plans(PROPERTY, "harness.consumer:ConsumerWorld", [("consumer-self-heal", consumer_configs(tier), b)],
                        seed, RULE, ASSUME, rep=rep, max_steps=400)
